@@ -30,6 +30,8 @@ EXPLANATION = (
 def run(ctx: Ctx):
     repo = ctx.repo
     rules.rule_transition(ctx, "D1")
+    ctx.attempt(rules.rule_enter_installs, ctx, "D1")
+    ctx.attempt(rules.rule_state_lineage, ctx, "D1", rules.step_path_funcs(repo))
     ai = repo.func(SSO, "apply_instructions")
     fam = [ai] + [f for f in repo.module(SSO).funcs.values() if f.qualname.startswith("apply_instructions.")]
     n = sum(rules.rule_adopt_on_success(ctx, f, "transition_previous_to_next", "D2") for f in fam)
@@ -52,7 +54,7 @@ def run(ctx: Ctx):
     ctx.attempt(rules.rule_error_discipline, ctx, "D1")
     ctx.floor("DU.no-partial-state", 60)
     ctx.floor("ORD.stack", 2)
-    ctx.floor("ORD.generation", 5)
+    ctx.floor("ORD.generation", 7)
     ctx.floor("ORD.phases", 2)
     ctx.not_decided += ["that each enter() rejects exactly the right situations (C02, C07, C10 decide the individual predicates)"]
 
@@ -207,6 +209,40 @@ def generation_order(ctx: Ctx):
             found = found and "instruction_stack" in kw
         ctx.check(found, "D3", "ORD.generation", f"{fn.name}: every new instruction is pushed onto its own vehicle's stack, starting from the stack so far", fn,
                   why_bad="push fold changed shape", construct=f"{fn.name}:push-fold")
+    # the updated generators are collected in the order they were applied (they define the next step's order)
+    ok = False
+    for p in flow.paths(aig.node):
+        if p.kind == "return" and isinstance(p.value, ast.Call):
+            kw = {k.arg: flow.dump(k.value) for k in p.value.keywords}
+            g = aig.params[1]
+            ok = kw.get("updated_instruction_generators") == f"self.updated_instruction_generators + ({g}.generate_instructions({aig.params[2]}, {aig.params[3]})[0],)"
+    ctx.check(ok, "D3", "ORD.generation", "apply_instruction_generator appends the updated generator (the next step's order is this step's order)", aig,
+              why_bad="updated generators are not appended in application order: the generator order changes from step to step", construct="apply_instruction_generator:updated-order")
+    upd = repo.func(SS, "StepSimulation.update")
+    ok = False
+    for p in flow.paths(upd.node):
+        if p.kind == "return" and isinstance(p.value, ast.Tuple) and len(p.value.elts) == 2:
+            d = flow.dump(p.value.elts[1])
+            ok = d.startswith("self.update_instruction_generators(generate_instructions(self.ordered_instruction_generators, ") and d.endswith(")[1])")
+    ctx.check(ok, "D3", "ORD.generation", "StepSimulation.update returns the controller rebuilt from this step's (possibly updated) generators, in order", upd,
+              why_bad="updated controller is not update_instruction_generators(generate_instructions(...)[1])", construct="StepSimulation.update:controller")
+    # the order field has a closed writer set; the single-generator update keeps it
+    def ord_writer(site):
+        f = site.func
+        if f is not None and f.relpath == SS and f.qualname in ("StepSimulation.from_tuple", "StepSimulation.update_instruction_generators"):
+            return "from_tuple / update_instruction_generators (order = given order, checked below)"
+        return None
+    rules.rule_field_writers(ctx, "D3", "instruction_generator_order", ord_writer, "instruction_generator_order is written only where the order is the given order", 2)
+    def uig_caller(site):
+        f = site.func
+        if f is None:
+            return None
+        if f.relpath == SS and f.qualname == "StepSimulation.update":
+            return "StepSimulation.update (generators in application order)"
+        if f.relpath.endswith("runner/runner_payload_ops.py") or f.relpath.endswith("state/simulation_state/update/update.py"):
+            return "payload helper passing the caller's tuple"
+        return None
+    rules.rule_callers(ctx, "D3", "update_instruction_generators", uig_caller, "the generator set is rebuilt only from an explicitly ordered tuple", 1)
     # generator order = configured order
     og = repo.func(SS, "StepSimulation.ordered_instruction_generators")
     ps = [p for p in flow.paths(og.node) if p.kind == "return"]
